@@ -214,7 +214,7 @@ class Borealis(TDM):
         corr_previous_loop = np.zeros(prog_length)
 
         for loop, offset in enumerate(phi_loop):
-            if user_offsets[loop]:
+            if user_offsets[loop] and not np.any(corr_previous_loop):
                 continue
 
             # correcting for the intrinsic phase applied by the loop; the loop
@@ -222,7 +222,15 @@ class Borealis(TDM):
             # ``delay = delays[loop]`` time bins; so at time bin ``j`` the phase to be
             # corrected for has amounted to ``int(j / delay)`` times the initial
             # loop offset
-            corr_loop = np.array([offset * int(j / self.delays[loop]) for j in range(prog_length)])
+            if user_offsets[loop]:
+                # the offset of this loop is part of the user's program and needs no
+                # compensation, but the phases accumulated by the compensation of the
+                # previous loop still have to be undone
+                corr_loop = np.zeros(prog_length)
+            else:
+                corr_loop = np.array(
+                    [offset * int(j / self.delays[loop]) for j in range(prog_length)]
+                )
 
             # the original phase-gate arguments associated to the loop
             phi_corr = np.array(program.tdm_params[1 + 2 * loop], dtype=np.float64)
